@@ -29,7 +29,7 @@ ASSUMPTIONS = [
     'float32 rounding once = numpy astype(float32) of the float64 value converted by scipp to the declared unit',
     'clock frozen',
 ]
-REQUIRED_CLASSES = ['pixels_equal', 'units_converted', 'indirect', 'direct', 'en2d', 'deg_input', 'reader_ok', 'multi_chunk', 'empty_string']
+REQUIRED_CLASSES = ['beyond_float32_range', 'pixels_equal', 'units_converted', 'indirect', 'direct', 'en2d', 'deg_input', 'reader_ok', 'multi_chunk', 'empty_string']
 BOUND = {
     'quick': 'pixels 0..20000, chunk 1..100000, 3 unit sets; runs 1/2/20; both modes',
     'thorough': 'same plus 100000 pixels',
@@ -53,6 +53,9 @@ def cases(tier):
                     if n >= 100 and (bo, sink) in (('big', 'bytes'), ('little', 'path')):
                         continue
                     out.append({'kind': 'pixels', 'n_pixels': n, 'chunk': ch, 'units': units, 'byteorder': bo, 'sink': sink})
+    for n in (1, 2, 13):
+        for bo in ('little', 'big'):
+            out.append({'kind': 'pixels', 'n_pixels': n, 'chunk': 4, 'units': 'extreme', 'byteorder': bo, 'sink': 'bytes'})
     for dtype in ('float32',):
         for n in (1, 13):
             out.append({'kind': 'pixels', 'n_pixels': n, 'chunk': 4, 'units': 'default', 'byteorder': 'little', 'sink': 'bytes', 'dtype': dtype})
@@ -105,7 +108,10 @@ def run_pixels(case, rec):
     da = sq.pixel_data(n, case['units'], case.get('dtype', 'float64'))
     want = sq.expected_pixel_rows(da)
     snap = da.copy(deep=True)
-    data, _ = sq.write_file(('pix',), byteorder=case['byteorder'], sink=case['sink'], chunk=case['chunk'], pix=da, experiments=[sq.experiment(0), sq.experiment(1)])
+    with warnings.catch_warnings():
+        if case['units'] == 'extreme':
+            warnings.simplefilter('ignore', RuntimeWarning)  # numpy's "overflow encountered in cast": the value is the point
+        data, _ = sq.write_file(('pix',), byteorder=case['byteorder'], sink=case['sink'], chunk=case['chunk'], pix=da, experiments=[sq.experiment(0), sq.experiment(1)])
     rec.transitions += 1
     if not sc.identical(da, snap, equal_nan=True):
         rec.viol('SqwBuilder.add_pixel_data', 'input_modified', 'pixel data array changed by the builder')
@@ -130,6 +136,8 @@ def run_pixels(case, rec):
         rec.cls('pixels_equal')
     if case['units'] != 'default':
         rec.cls('units_converted')
+    if case['units'] == 'extreme':
+        rec.cls('beyond_float32_range')
     if case['chunk'] < n:
         rec.cls('multi_chunk')
     # pixel metadata
